@@ -56,8 +56,13 @@ class SliceOperator(LinearOperator):
                 f" domain ({self._domain.shape})"
             )
             raise ValueError(ve)
+        # `None` copies the shape of the respective sub-domain
+        new_shape = tuple(
+            d.shape if shape is None else tuple(int(s) for s in np.atleast_1d(shape))
+            for d, shape in zip(self._domain, new_shape)
+        )
         for i, shape in enumerate(new_shape):
-            if len(np.atleast_1d(shape)) != len(self._domain[i].shape):
+            if len(shape) != len(self._domain[i].shape):
                 ve = (
                     f"shape of subspace ({i}) is incompatible with the domain"
                 )
@@ -66,9 +71,7 @@ class SliceOperator(LinearOperator):
         tgt = []
         slc_by_ax = []
         for i, d in enumerate(self._domain):
-            if new_shape[i] is None or np.all(
-                np.array(self._domain.shape[i]) == np.array(new_shape[i])
-            ):
+            if new_shape[i] == d.shape:
                 tgt += [d]
             elif np.all(np.array(new_shape[i]) <= np.array(d.shape)):
                 dom_kw = dict()
